@@ -57,7 +57,7 @@ func (t *TV) UnmarshalJSON(b []byte) error {
 		} else if len(kv) > 0 && string(kv) != "[]" {
 			return fmt.Errorf("tagged: bad kv %s", kv)
 		}
-	case "l":
+	case "l", "ls", "lm":
 		t.It = []*TV{}
 		it := bytes.TrimSpace(r.It)
 		if len(it) > 0 && it[0] == '[' {
@@ -82,7 +82,7 @@ func (t *TV) MarshalJSON() ([]byte, error) {
 			T  string         `json:"t"`
 			KV map[string]*TV `json:"kv"`
 		}{"m", kv})
-	case "l":
+	case "l", "ls", "lm":
 		it := t.It
 		if it == nil {
 			it = []*TV{}
@@ -90,7 +90,7 @@ func (t *TV) MarshalJSON() ([]byte, error) {
 		return json.Marshal(struct {
 			T  string `json:"t"`
 			It []*TV  `json:"it"`
-		}{"l", it})
+		}{t.T, it})
 	}
 	return json.Marshal(struct {
 		T string `json:"t"`
@@ -159,6 +159,33 @@ func (t *TV) ToGo() interface{} {
 		return i
 	case "jn":
 		return json.Number(t.V)
+	// Go-typed values a caller may put into a Map (the decoders never produce them)
+	case "i32":
+		i, err := strconv.ParseInt(t.V, 10, 32)
+		if err != nil {
+			panic("tagged: bad int32 token " + t.V)
+		}
+		return int32(i)
+	case "f32":
+		f, err := strconv.ParseFloat(t.V, 32)
+		if err != nil {
+			panic("tagged: bad float32 token " + t.V)
+		}
+		return float32(f)
+	case "by":
+		return []byte(subst(t.V))
+	case "ls":
+		l := make([]string, len(t.It))
+		for i, v := range t.It {
+			l[i] = subst(v.V)
+		}
+		return l
+	case "lm":
+		l := make([]map[string]interface{}, len(t.It))
+		for i, v := range t.It {
+			l[i] = v.ToGo().(map[string]interface{})
+		}
+		return l
 	}
 	panic("tagged: unknown tag " + t.T)
 }
@@ -226,6 +253,12 @@ func fromGo(v interface{}, d int) *TV {
 		return &TV{T: "u64", V: strconv.FormatUint(x, 10)}
 	case json.Number:
 		return &TV{T: "jn", V: string(x)}
+	case int32:
+		return &TV{T: "i32", V: strconv.FormatInt(int64(x), 10)}
+	case float32:
+		return &TV{T: "f32", V: strconv.FormatFloat(float64(x), 'g', -1, 32)}
+	case []byte:
+		return &TV{T: "by", V: string(x)}
 	case []map[string]interface{}:
 		t := &TV{T: "l", It: make([]*TV, len(x))}
 		for i, e := range x {
